@@ -255,7 +255,7 @@ def lexical_loop_exits(loop_stmt):
     return out
 
 
-def check_loop_conservation(cfg, loop_stmt, is_sink):
+def check_loop_conservation(cfg, loop_stmt, is_sink, sink_edges=()):
     """Loop-conservation check on the CFG of one function.
 
     For loop statement ``loop_stmt`` (For/While) verify
@@ -274,7 +274,7 @@ def check_loop_conservation(cfg, loop_stmt, is_sink):
     for b in body_starts:
         if b in sinks:
             continue
-        p = cfg.find_path(b, head, avoid_nodes=sinks)
+        p = cfg.find_path(b, head, avoid_nodes=sinks, avoid_edges=sink_edges)  # sink_edges: branch edges that count as handled
         if p is not None:
             problems.append(("skip", [head] + p))
     reach = cfg.reachable(cfg.entry)
@@ -431,7 +431,7 @@ def _atom_holds_for_len(atom_text, polarity, seq_text, n):
         return None
 
 
-def edges_implying_short(cfg, seq_text, max_len):
+def edges_implying_short(cfg, seq_text, max_len, as_edges=False):
     """CFG successor nodes of branch edges on which `seq_text` is known to have at most ``max_len`` elements
     (e.g. the true edge of `len(positions) < 2`, the false edge of `positions`): a loop over seq[max_len:] would do nothing there."""
     from .norm import atoms
@@ -448,7 +448,7 @@ def edges_implying_short(cfg, seq_text, max_len):
                     continue
                 if all((not v) for n, v in enumerate(vals) if n > max_len) and any(vals):
                     for s_ in cfg.succ(t, lab):
-                        out.add(s_)
+                        out.add((t, s_) if as_edges else s_)
     return out
 
 
